@@ -19,7 +19,9 @@ func sw(key, opname, val string) *snode {
 	return n
 }
 
-func sgrp(kind byte, kids ...*snode) *snode { return &snode{kind: kind, gap: " ", ngap: " ", kids: kids} }
+func sgrp(kind byte, kids ...*snode) *snode {
+	return &snode{kind: kind, gap: " ", ngap: " ", kids: kids}
+}
 
 // corpus: the regression cases (DESIGN.md §7 #9–#13 and what the check found since); always run first
 func corpus(g *g, emit func(hxlib.Case)) {
@@ -48,6 +50,8 @@ func corpus(g *g, emit func(hxlib.Case)) {
 		{prefix: "db:k", where: w('W', "and", 0, i1)},
 		{prefix: "db:k", where: w('W', "S", 15, arg{t: 's', s: "^King "})},
 		{prefix: "db:k", where: w('W', "F", 5, arg{t: 'f', f: 1.5})},
+		{prefix: "db:k", where: w('W', "I", 0, arg{t: 's', s: "x"}), precheck: true},
+		{prefix: "db:k", where: w('W', "I", 0, i1), precheck: true},
 	}
 	for _, in := range rts {
 		g.emitRT(emit, "corpus-rt", in, 2)
@@ -97,7 +101,7 @@ func generate(r *hxlib.Run, emit func(hxlib.Case)) {
 	// (a) object → text → object
 	for i := 0; i < r.Budget(20000, 250000); i++ {
 		wf := g.rng.Intn(5) != 0
-		in := &rtIn{prefix: g.prefix(), limit: g.limit(wf), offset: g.limit(wf)}
+		in := &rtIn{prefix: g.prefix(), limit: g.limit(wf), offset: g.limit(wf), precheck: g.rng.Intn(4) == 0}
 		if g.rng.Intn(12) != 0 {
 			in.where = g.tree(g.rng.Intn(maxDepth+1), wf)
 		}
@@ -146,8 +150,8 @@ func generate(r *hxlib.Run, emit func(hxlib.Case)) {
 
 func main() {
 	hxlib.Main(&hxlib.Harness{
-		Prop: "C11",
-		Rule: "three generators, every choice seeded: (a) rt = a query tree built through the API (all 18 operators + invalid ones, and/or/not nesting to depth 4 quick / 6 thorough, widths 0–4, every operand class incl. int64 extremes, textual operands, strings over an alphabet with spaces, quotes, backslashes, parentheses, commas, multi-byte runes; any prefix/orderby/limit/offset) → Check → Print → ParseQuery → Print, with MatchesRecord on 3 harness records in JSON and struct form before and after; (b) gs = sentences of the README grammar (all operator aliases, quoted/escaped/plain words, whitespace variants, not-forms, groups ending the condition list), rendered independently and parsed; every query ParseQuery returns is itself printed and re-parsed; mutated sentences/prints (token drop/dup/swap, unbalanced quotes and parentheses, trailing backslash or multi-byte rune, keywords as keys, byte cuts); (c) raw strings incl. invalid UTF-8 (implementation only). A case is non-trivial if it is a checked query with a where clause (rt), a grammar sentence with a where clause (gs) or an input longer than 6 bytes (parse/lex); distinct by the hash of its op line.",
+		Prop:     "C11",
+		Rule:     "three generators, every choice seeded: (a) rt = a query tree built through the API (all 18 operators + invalid ones, and/or/not nesting to depth 4 quick / 6 thorough, widths 0–4, every operand class incl. int64 extremes, textual operands, strings over an alphabet with spaces, quotes, backslashes, parentheses, commas, multi-byte runes; any prefix/orderby/limit/offset) → Check → Print → ParseQuery → Print, with MatchesRecord on 3 harness records in JSON and struct form before and after; (b) gs = sentences of the README grammar (all operator aliases, quoted/escaped/plain words, whitespace variants, not-forms, groups ending the condition list), rendered independently and parsed; every query ParseQuery returns is itself printed and re-parsed; mutated sentences/prints (token drop/dup/swap, unbalanced quotes and parentheses, trailing backslash or multi-byte rune, keywords as keys, byte cuts); (c) raw strings incl. invalid UTF-8 (implementation only). A case is non-trivial if it is a checked query with a where clause (rt), a grammar sentence with a where clause (gs) or an input longer than 6 bytes (parse/lex); distinct by the hash of its op line.",
 		Generate: generate,
 		NewExec:  func(r *hxlib.Run) hxlib.Exec { return exec{r} },
 		Monitor:  monitor,
